@@ -505,7 +505,15 @@ def rule_optional_overrides(run):
         for x in walk_local(f.node):
             if isinstance(x, ast.IfExp) and isinstance(x.test, ast.Compare) and isinstance(x.test.ops[0], (ast.Is, ast.IsNot)) and isinstance(x.test.left, ast.Name) and x.test.left.id in NAMES:
                 sel += 1
-                run.ob(True, q, file=sc.rel, line=x.lineno, detail=f"override-{x.test.left.id}@{x.lineno - f.node.lineno}", expected="identity test against None", found=src(x.test), sample=False)
+                # `k=self._k if k is None else k`: the tested name, the override value and the keyword are the same name
+                par = sc.parents.of(x)
+                kw = par.arg if isinstance(par, ast.keyword) else None
+                tested = x.test.left.id
+                is_none = isinstance(x.test.ops[0], ast.Is)
+                override = x.orelse if is_none else x.body
+                stored = x.body if is_none else x.orelse
+                ok = dotted(override) == tested and (kw is None or kw == tested) and (dotted(stored) or "").split(".")[-1].lstrip("_") == tested
+                run.ob(ok, q, file=sc.rel, line=x.lineno, detail=f"override-{tested}@{x.lineno - f.node.lineno}", expected=f"{kw or tested}=<stored {tested}> if {tested} is None else {tested}", found=src(x)[:80], sample=False)
     # sensitivity list construction keeps all arguments
     im = run.idx.mod("cohdl/_core/_intrinsic.py")
     f = im.func("sensitifity_list_replacement") if im.has_func("sensitifity_list_replacement") else None
